@@ -13,6 +13,7 @@ CONSTANTS
   RemoveCancels = FALSE
   CycleSkipsLocked = TRUE
   OfferSkipsLocked = TRUE
+  OfferSkipsOccupied = TRUE
 INVARIANT TypeOK
 INVARIANT AtMostOneNegotiation
 INVARIANT SlotsTrackLive
